@@ -249,6 +249,8 @@ def gen_case(rng, forced_kind=None):
         if sv["etag"] not in (None, prev_etag):
             sv["etag"] = '"' + "".join(rng.choice("0123456789abcdef") for _ in range(rng.randint(70, 120))) + '"'
         c["ext"] = "gz"
+    if big:
+        c["chunk"] = 0
     c["srv"] = sv
     # the follow-up sync: a good server with another tarball; sometimes the same etag as the first
     sv2 = {"status": 200, "inm": rng.random() < 0.5, "ims": False,
@@ -607,6 +609,12 @@ def c_srv(sv, chunks, complete):
 
 # ------------------------------------------------------------------------------ one scenario
 def body_of(sv, ext):
+    if "_body" not in sv:
+        sv["_body"] = _body_of(sv, ext)      # gzip stamps the time: build each body exactly once
+    return sv["_body"]
+
+
+def _body_of(sv, ext):
     good = make_tarball(sv["members"], ext)
     if sv["body"] == "tar":
         return good, None
@@ -939,8 +947,23 @@ def main(chk: Check):
                                        "speak about this code",
                                "input": short_case(res["case"]), "outcome": res["ref"]["code"],
                                "detail": res["ref"]["detail"], "steps": res["tags"],
+                               "model_says": explain(chk, rows[i][0]),
+                               "points": [(pt["k"], pt["mid"], pt.get("call"), pt.get("f"), pt.get("out2"),
+                                           pt.get("detail2")) for pt in res["points"]],
                                "calls": [repr(c[:3]) for c in res["ref"]["trace"]][:40]},
                               no_input=not prop_bad)
+
+
+def explain(chk, term):
+    """evaluate run_case / the spec codes of one case in Coq and return the printed answer"""
+    f = chk.scratch / "explain_c47.v"
+    f.write_text(f"{IMPORTS}\nImport ListNotations.\n{PREAMBLE}\nDefinition c : case := {term}.\n"
+                 "Eval vm_compute in (run_case c).\n"
+                 "Eval vm_compute in (map step_tag (fst (sync (c_fixed c) (c_force c) (c_srv c) (c_tar c) "
+                 "(c_chunk c) (c_s0 c))), point_codes c, final_code c).\n")
+    r = subprocess.run(["timeout", "300", "coqc", "-R", "/verif/coq", "Verif", "-Q", str(chk.scratch), "Cases", str(f)],
+                       capture_output=True, text=True, cwd=chk.scratch)
+    return (r.stdout + r.stderr)[-1500:]
 
 
 def replay(chk, data):
